@@ -149,3 +149,36 @@ func GenRuntimeFile(r *R, idx int, o RuntimeOpts) *ir.Request {
 	}
 	return &ir.Request{Files: []*ir.File{f}, Generate: []string{f.Name}}
 }
+
+// GenErrorFile builds the fixed-shape schema C10 scripts its error sources on: one required
+// service header, a GET with an int path variable and a required query parameter, a POST whose
+// request carries buf.validate rules at top level, in a child, in repeated and map children,
+// and a custom protobuf error type.
+func GenErrorFile(r *R, idx int) *ir.Request {
+	pkg := Pick(r, []string{"err.v1", "shop.errs"})
+	gp := "example.com/gen/err;errpb"
+	f := &ir.File{Name: fmt.Sprintf("err%d/api.proto", idx), Package: pkg, GoPackage: gp}
+	P := "." + pkg + "."
+	one := uint64(1)
+	z := "0"
+	street := Pick(r, []string{"street", "street_name", "addr2"})
+	leaf := &ir.Message{Name: "Leaf", Fields: []*ir.Field{{Name: street, Number: 1, Kind: "string", Rules: &ir.Rules{MinLen: &one}}, {Name: "zip", Number: 2, Kind: "int32"}}}
+	reply := &ir.Message{Name: "Reply", Fields: []*ir.Field{{Name: "id", Number: 1, Kind: "string"}, {Name: "n", Number: 2, Kind: "int64"}}}
+	getReq := &ir.Message{Name: "GetReq", Fields: []*ir.Field{{Name: "num", Number: 1, Kind: "int32"}, {Name: "must", Number: 2, Kind: "string", Ann: ir.Ann{Query: &ir.Query{Name: "must", Required: true}}}}}
+	postReq := &ir.Message{Name: "PostReq", Fields: []*ir.Field{
+		{Name: "name", Number: 1, Kind: "string", Rules: &ir.Rules{MinLen: &one}},
+		{Name: "qty", Number: 2, Kind: "int32", Rules: &ir.Rules{Gte: &z}},
+		{Name: "home", Number: 3, Kind: "message", TypeName: P + "Leaf"},
+		{Name: "places", Number: 4, Kind: "message", TypeName: P + "Leaf", Card: "repeated"},
+		{Name: "by_key", Number: 5, Kind: "message", TypeName: P + "Leaf", Card: "map", MapKey: "string"},
+	}}
+	nf := &ir.Message{Name: "NotFoundError", Fields: []*ir.Field{{Name: "resource", Number: 1, Kind: "string"}, {Name: "code", Number: 2, Kind: "int32"},
+		{Name: "detail", Number: 3, Kind: "message", TypeName: P + "Leaf"}, {Name: "ids", Number: 4, Kind: "int64", Card: "repeated"}}}
+	f.Messages = []*ir.Message{leaf, reply, getReq, postReq, nf}
+	f.Services = []*ir.Service{{Name: "Errs", BasePath: "/e", Headers: []ir.Header{{Name: "X-Req", Type: "string", Required: true}},
+		Methods: []*ir.Method{
+			{Name: "Get", Input: P + "GetReq", Output: P + "Reply", Config: &ir.HTTPConfig{Path: "/g/{num}", Method: "GET"}},
+			{Name: "Post", Input: P + "PostReq", Output: P + "Reply", Config: &ir.HTTPConfig{Path: "/p", Method: "POST"}},
+		}}}
+	return &ir.Request{Files: []*ir.File{f}, Generate: []string{f.Name}}
+}
